@@ -16,7 +16,7 @@ LEVEL_TEXT = ('partial proof over a heuristic scan. PROVED: the composition of p
               'in-place on that argument (induction over the history + decidable check of the generated table against the '
               'documented in-place list); the frame is slot- and attribute-specific (an in-place fit may write only what the plane holds through opd/tilt: '
               'inplace_fit_never_writes_amplitude, inplace_writes_go_through_documented_attributes); plane-state confluence holds at model level (composed with C04); seeded functions never touch the global generator; the _dft2_coords cache always holds '
-              'arange(n)-floor(n/2) because nothing writes it, so results are history independent. SAMPLED, not proved: that each '
+              'arange(n)-floor(n/2) because nothing writes it, so results are history independent and a repeated call sees the same coordinates (repeated_call_sees_same_coordinates); the seed reaches every generator (seed_reaches_every_generator). SAMPLED, not proved: that each '
               'summary (a row of the scan) is right about what NumPy/Python actually do — random histories on frozen, byte-snapshotted '
               'caller arrays and objects, op labels resolved through the receiver class MRO to the function that Python will run (not traced); the scan\'s alias rule is a heuristic.')
 LEVEL_NOTE = ('PARTIAL PROOF (category proof because Lean theorems carry the composition argument; NOT a proof of purity of the Python code): '
